@@ -46,6 +46,43 @@ def histories(rng, n, max_ops, hostile, deep=0):
     return out
 
 
+MATRIX_DOC = ("<!DOCTYPE r [<!ENTITY e 'v'>]><?p d?><r a='x&amp;y' b='2'>t<![CDATA[c]]><!--k--><?q z?>&amp;&e;<s><u/>w</s></r><!--end-->")
+
+
+def matrix_cases():
+    """EVERY mutator with EVERY kind of node as the receiver (document, document type, element, attribute, the text and the reference
+    inside an attribute value, text, CDATA section, comment, PI, entity reference) and a few arguments of different kinds: the
+    calls an ordinary history hardly ever makes (a child appended to a comment, a CDATA section split, normalize on an attribute)"""
+    import re as _re
+    a = lib.run_lines(lib.build_harness(), [lib.req("dom", MATRIX_DOC, "count(//*)")], timeout=120, per_line_resume=True)[0]
+    dump0 = D.split_records(a)[0].get("dump", "")
+    hs = sorted({int(x) for x in _re.findall(r"h(\d+):", dump0)})
+    if not hs:
+        return []
+    nh = hs[-1] + 1
+    kinds = dict((int(h), k) for h, k in _re.findall(r"h(\d+):([A-Z])", dump0))
+    def first(k):
+        return next((h for h in hs if kinds.get(h) == k), hs[0])
+    args = sorted({first("E"), first("T"), first("A"), first("C"), first("S"), first("P"), first("R"), first("Y"), hs[min(len(hs) - 1, 12)]})
+    out = []
+    for h in hs:
+        for k in args:
+            out.append(["rm:h%d:h%d" % (h, k)])
+            out.append(["ce:z", "ib:h%d:h%d:h%d" % (h, nh, k)])
+            out.append(["ce:z", "rc:h%d:h%d:h%d" % (h, nh, k)])
+            out.append(["ap:h%d:h%d" % (h, k)])
+            out.append(["ran:h%d:h%d" % (h, k)])
+        for mk in ("ce:z", "ct:z", "cc:z", "cd:z", "cp:z:y", "ca:z", "cr:amp"):
+            out.append([mk, "ap:h%d:h%d" % (h, nh)])
+            out.append([mk, "ib:h%d:h%d:-" % (h, nh)])
+            out.append([mk, "san:h%d:h%d" % (h, nh)])
+        for op in ("ad:h%d:q", "sd:h%d:q", "id:h%d:0:q", "id:h%d:9:q", "dd:h%d:0:1", "rd:h%d:0:1:q", "sv:h%d:q", "st:h%d:1", "st:h%d:0", "st:h%d:9",
+                   "nz:h%d", "sa:h%d:n:v", "sa:h%d:a:v", "ra:h%d:a", "ra:h%d:zz", "ga:h%d:a", "ga:h%d:zz", "ch:h%d:0", "ch:h%d:7", "gni:h%d:a",
+                   "rni:h%d:a", "rni:h%d:zz"):
+            out.append([op % h])
+    return [(MATRIX_DOC, ops) for ops in out]
+
+
 def run_histories(cases, queries=QUERIES, timeout=1800):
     lines = [lib.req("dom", t, queries, *ops) for t, ops in cases]
     impl = lib.run_lines(lib.build_harness(), lines, timeout=timeout, per_line_resume=True)
@@ -94,6 +131,9 @@ def common(chk, prop, thorough, n_quick, n_thorough, max_ops_q, max_ops_t, hosti
     n = n_thorough if thorough else n_quick
     cases = histories(rng, n, max_ops_t if thorough else max_ops_q, hostile, deep=4 if prop in ("C14", "C12") else 2)
     cases += [(t, ops.split(" ")) for t, ops in (l.split("\t", 1) for l in X.corpus_lines(prop, "found.txt") if "\t" in l)]
+    if prop in ("C13", "C12"):
+        mc = matrix_cases()
+        cases += mc if thorough or prop == "C13" else mc[::5]
     impl, model = run_histories(cases)
     ri = [D.split_records(a) for a in impl]
     rm = [D.split_records(m) for m in model]
